@@ -1349,6 +1349,12 @@ func ruleLineComplete(c *Ctx) {
 						continue
 					}
 				}
+				// the exit is decided by the sign of a helper's result (`end := lineEnd(buf, i, err != nil); if end >= 0 { break }`):
+				// the helper's non-negative returns are the exits to classify, in the helper's own terms
+				if hn, handled := lineCompleteThroughHelper(c, fn, b, si, &n); handled {
+					_ = hn
+					continue
+				}
 				n++
 				key := fmt.Sprintf("%s:exit#%d", shortFuncName(fn), n)
 				ok, why := false, "loop exit not behind an LF test, a look-ahead-available test or the end-of-input test"
@@ -1400,8 +1406,8 @@ func ruleLineComplete(c *Ctx) {
 				c.Check(ok, "LINE-COMPLETE", key, pos, why)
 			}
 		}
-		if n < 3 {
-			c.Undecided("LINE-COMPLETE", shortFuncName(fn)+":exits", read.Pos(), fmt.Sprintf("%d loop exits recognised, 5 confirmed by hand", n))
+		if n < 2 {
+			c.Undecided("LINE-COMPLETE", shortFuncName(fn)+":exits", read.Pos(), fmt.Sprintf("%d loop exits recognised; a reader loop has at least a line-feed exit and an end-of-input exit", n))
 		}
 	}
 }
@@ -1997,6 +2003,91 @@ func ruleScanStart(c *Ctx) {
 		})
 	}
 	if n < 1 {
+		// the search may live in a helper called from the refill loop with the start position as an argument
+		for _, fn := range p.Funcs {
+			var read ssa.Instruction
+			eachInstr(fn, func(in ssa.Instruction) {
+				if _, ok := isInvokeOf(in, "Read"); ok {
+					read = in
+				}
+			})
+			if read == nil {
+				continue
+			}
+			var loop *natLoop
+			for _, l := range naturalLoops(fn) {
+				l := l
+				if l.body[read.Block()] && (loop == nil || len(l.body) < len(loop.body)) {
+					loop = &l
+				}
+			}
+			if loop == nil {
+				continue
+			}
+			eachInstr(fn, func(in ssa.Instruction) {
+				call, ok := in.(*ssa.Call)
+				if !ok || !loop.body[call.Block()] {
+					return
+				}
+				g := call.Call.StaticCallee()
+				if g == nil || g.Blocks == nil || !p.InModule(g) {
+					return
+				}
+				eachInstr(g, func(gin ssa.Instruction) {
+					gc, ok := gin.(*ssa.Call)
+					if !ok {
+						return
+					}
+					f := gc.Call.StaticCallee()
+					if f == nil || f.Pkg == nil || f.Pkg.Pkg.Path() != "bytes" || f.Name() != "IndexAny" {
+						return
+					}
+					set, ok := constString(gc.Call.Args[1])
+					if !ok || !strings.Contains(set, "\r") || !strings.Contains(set, "\n") {
+						return
+					}
+					sl, ok := gc.Call.Args[0].(*ssa.Slice)
+					if !ok {
+						return
+					}
+					n++
+					key := fmt.Sprintf("%s→%s:search#%d", shortFuncName(fn), g.Name(), n)
+					if sl.Low == nil {
+						c.OK("SCAN-START", key, gc.Pos(), "the whole buffer is searched")
+						return
+					}
+					pi := -1
+					for i, q := range g.Params {
+						if ssa.Value(q) == sl.Low {
+							pi = i
+						}
+					}
+					if pi < 0 || pi >= len(call.Call.Args) {
+						c.Undecided("SCAN-START", key, gc.Pos(), "the helper computes the search start itself: "+sl.Low.String())
+						return
+					}
+					arg := call.Call.Args[pi]
+					fixed := false
+					if ld, isLd := arg.(*ssa.UnOp); isLd && ld.Op == token.MUL {
+						if fa, isFA := ld.X.(*ssa.FieldAddr); isFA {
+							fixed = true
+							for b := range loop.body {
+								for _, x := range b.Instrs {
+									if st, ok := x.(*ssa.Store); ok {
+										if fa2, ok := st.Addr.(*ssa.FieldAddr); ok && fa2.Field == fa.Field && sameValue(fa2.X, fa.X) {
+											fixed = false
+										}
+									}
+								}
+							}
+						}
+					}
+					c.Check(fixed, "SCAN-START", key, call.Pos(), "the search start handed to the helper is not a parser field that stays fixed during the refill loop")
+				})
+			})
+		}
+	}
+	if n < 1 {
 		c.Undecided("SCAN-START", "instance-count", token.NoPos, "no search for line endings found in the reader function")
 	}
 }
@@ -2396,4 +2487,119 @@ func ruleFillLast(c *Ctx) {
 	if n < 1 {
 		c.Undecided("FILL-LAST", "instance-count", fill.Pos(), "fillNulls is never called")
 	}
+}
+
+// lineCompleteThroughHelper: the exit edge b→succ[si] of the reader loop is the "result >= 0" edge of a test of a module
+// helper's integer result. Every return of the helper whose value is not a negative constant is then classified like a
+// loop exit: behind a line-feed edge, behind a look-ahead-available edge (k+1 < len of the parameter that receives the
+// buffer), or behind the true edge of a bool parameter that the call binds to `err != nil`.
+func lineCompleteThroughHelper(c *Ctx, fn *ssa.Function, b *ssa.BasicBlock, si int, n *int) (int, bool) {
+	iff := blockIf(b)
+	if iff == nil {
+		return 0, false
+	}
+	bo, ok := iff.Cond.(*ssa.BinOp)
+	if !ok {
+		return 0, false
+	}
+	k, isC := constInt(bo.Y)
+	if !isC {
+		return 0, false
+	}
+	nonNegEdge := -1
+	switch {
+	case bo.Op == token.GEQ && k == 0, bo.Op == token.GTR && k == -1:
+		nonNegEdge = 0
+	case bo.Op == token.LSS && k == 0, bo.Op == token.LEQ && k == -1:
+		nonNegEdge = 1
+	}
+	if nonNegEdge != si {
+		return 0, false
+	}
+	call, ok := bo.X.(*ssa.Call)
+	if !ok {
+		return 0, false
+	}
+	g := call.Call.StaticCallee()
+	if g == nil || g.Blocks == nil || !c.P.InModule(g) {
+		return 0, false
+	}
+	// parameter bindings
+	bufParam, eofParam := -1, -1
+	eofTrueMeansEOF := true
+	for ai, a := range call.Call.Args {
+		if _, isBuf := isLoadOfField(a, "BlockParser", "buf"); isBuf {
+			bufParam = ai
+		}
+		if x, nilIdx, isNil := nilTest(a); isNil {
+			if _, isErr := isLoadOfField(x, "BlockParser", "err"); isErr {
+				eofParam = ai
+				eofTrueMeansEOF = nilIdx == 1 // argument true when err is non-nil
+			}
+		}
+	}
+	count := 0
+	for ri, r := range returnsOf(g) {
+		if len(r.Results) != 1 {
+			continue
+		}
+		if kv, isK := constInt(r.Results[0]); isK && kv < 0 {
+			continue
+		}
+		count++
+		*n++
+		key := fmt.Sprintf("%s→%s:return#%d", shortFuncName(fn), g.Name(), ri+1)
+		ok, why := false, "the helper reports a complete line on a path that is not behind an LF test, a look-ahead-available test or the end-of-input parameter"
+		for _, gb := range g.Blocks {
+			gif := blockIf(gb)
+			if gif == nil {
+				continue
+			}
+			for gi := 0; gi < 2; gi++ {
+				if !edgeDominates(gb, gi, r.Block()) {
+					continue
+				}
+				cond := gif.Cond
+				// (c) end-of-input parameter
+				if eofParam >= 0 && eofParam < len(g.Params) {
+					neg := isNegated(cond)
+					if stripNot(cond) == ssa.Value(g.Params[eofParam]) {
+						paramTrueEdge := 0
+						if neg {
+							paramTrueEdge = 1
+						}
+						if (gi == paramTrueEdge) == eofTrueMeansEOF {
+							ok, why = true, "behind the end-of-input parameter"
+						}
+						continue
+					}
+				}
+				gbo, isBo := cond.(*ssa.BinOp)
+				if !isBo {
+					continue
+				}
+				// (a) byte == '\n'
+				if gbo.Op == token.EQL && gi == 0 {
+					if kk, isK := constInt(gbo.Y); isK && kk == '\n' {
+						ok, why = true, "behind a line-feed edge"
+					}
+				}
+				// (b) k+1 < len(buffer parameter)
+				if gbo.Op == token.LSS && gi == 0 && bufParam >= 0 && bufParam < len(g.Params) {
+					if cl, isLen := isBuiltinCall(gbo.Y, "len"); isLen && cl.Call.Args[0] == ssa.Value(g.Params[bufParam]) {
+						if add, isAdd := gbo.X.(*ssa.BinOp); isAdd && add.Op == token.ADD {
+							if one, isOne := constInt(add.Y); isOne && one >= 1 {
+								ok, why = true, "behind the look-ahead-available edge"
+							}
+						}
+					}
+				}
+			}
+		}
+		c.Check(ok, "LINE-COMPLETE", key, r.Pos(), why)
+	}
+	if count == 0 {
+		return 0, false
+	}
+	return count, true
 }
